@@ -17,6 +17,14 @@
 From KG Require Import Prelude.
 Open Scope Z_scope.
 
+(* parent of a probe context.  EnsureGatewayHealthCheck(e, interval, ctx) derives the probe context from
+   the context it is handed; addOrUpdateEndpoint hands it info.ctx — the ENDPOINT's context — on both of
+   its paths (new endpoint, and update of a known endpoint).  The parent is recorded per probe context so
+   that "removal stops probing" is a statement about whatever path started the probe loop. *)
+Inductive pkind := PEp | PCl.
+Definition new_path_parent : pkind := PEp.     (* addOrUpdateEndpoint, new endpoint:   ..., info.ctx) *)
+Definition update_path_parent : pkind := PEp.  (* addOrUpdateEndpoint, known endpoint: ..., info.ctx) *)
+
 Record epo := mkEp {
   eobj : Z;          (* identity of the EndpointInfo object *)
   ecl : Z;           (* identity of the ClusterInfo object it belongs to (its context's parent) *)
@@ -24,6 +32,9 @@ Record epo := mkEp {
   elive : bool;      (* still in ClusterInfo.Endpoints *)
   ecancel : bool;    (* info.cancel() was called (endpoint removed) *)
   ehealthy : bool;
+  edisabled : bool;  (* status.Disabled *)
+  eprobing : bool;   (* cancelHealthCheck != nil: a probe context exists and was not cancelled by a disable *)
+  pparent : pkind;   (* the context the current probe context was derived from *)
 }.
 
 Record clo := mkCl {
@@ -77,7 +88,8 @@ Definition resolve (s : st) (host : Z) : option Z := zlook host (names s).
 Definition cl_done (s : st) (o : Z) : bool :=
   match find_cl s o with Some c => ccancel c | None => false end.
 Definition ep_done (s : st) (e : epo) : bool := cl_done s (ecl e) || ecancel e.
-Definition probe_done (s : st) (e : epo) : bool := ep_done s e.
+Definition probe_done (s : st) (e : epo) : bool :=
+  negb (eprobing e) || match pparent e with PEp => ep_done s e | PCl => cl_done s (ecl e) end.
 Definition ep_done_obj (s : st) (eo : Z) : bool :=
   match find_ep s eo with Some e => ep_done s e | None => false end.
 Definition req_done (s : st) (r : rq) : bool :=
@@ -92,10 +104,21 @@ Definition set_ph (r : rq) (p : phase) : rq := mkRq (rid r) (rcl r) (rsub r) (re
 Definition primary (c : clo) : Z := match cnames c with n :: _ => n | [] => -1 end.
 
 (* fresh endpoint objects eobj = base, base+1, ... of cluster object o for the given names *)
-Fixpoint fresh_eps (base o : Z) (ns : list Z) : list epo :=
+(* EnsureGatewayHealthCheck: a disable cancels the probe context, an enable without one starts one
+   (derived from the context [par] the caller hands in) *)
+Definition ensure (par : pkind) (e : epo) : epo :=
+  if edisabled e then mkEp (eobj e) (ecl e) (ename e) (elive e) (ecancel e) (ehealthy e) (edisabled e) false (pparent e)
+  else if eprobing e then e
+  else mkEp (eobj e) (ecl e) (ename e) (elive e) (ecancel e) (ehealthy e) (edisabled e) true par.
+
+Definition dis_in (sv : list (Z * bool)) (n : Z) : bool := existsb (fun p => (fst p =? n) && snd p) sv.
+
+(* new endpoints: Healthy=false, Disabled as in the spec, then EnsureGatewayHealthCheck(info, _, info.ctx) *)
+Fixpoint fresh_eps (base o : Z) (sv : list (Z * bool)) (ns : list Z) : list epo :=
   match ns with
   | [] => []
-  | n :: r => mkEp base o n true false false :: fresh_eps (base + 1) o r
+  | n :: r => ensure new_path_parent (mkEp base o n true false false (dis_in sv n) false PEp)
+              :: fresh_eps (base + 1) o sv r
   end.
 
 Definition eps_of (s : st) (o : Z) : list epo := filter (fun e => ecl e =? o) (eps s).
@@ -107,7 +130,14 @@ Fixpoint dedup (l : list Z) : list Z :=
 (* syncEndpoints on cluster object o: endpoints not wanted any more leave the map and their context is cancelled *)
 Definition drop_ep (o : Z) (want : list Z) (e : epo) : epo :=
   if (ecl e =? o) && elive e && negb (zmem (ename e) want)
-  then mkEp (eobj e) (ecl e) (ename e) false true (ehealthy e) else e.
+  then mkEp (eobj e) (ecl e) (ename e) false true (ehealthy e) (edisabled e) (eprobing e) (pparent e) else e.
+
+(* addOrUpdateEndpoint on a known endpoint: SetDisabled, then EnsureGatewayHealthCheck(info, _, info.ctx) *)
+Definition update_ep (o : Z) (sv : list (Z * bool)) (e : epo) : epo :=
+  if (ecl e =? o) && elive e
+  then ensure update_path_parent
+         (mkEp (eobj e) (ecl e) (ename e) (elive e) (ecancel e) (ehealthy e) (dis_in sv (ename e)) (eprobing e) (pparent e))
+  else e.
 
 Definition bind_all (o : Z) (ns : list Z) (l : list (Z * Z)) : list (Z * Z) :=
   fold_left (fun acc n => match zlook n acc with Some _ => acc | None => (n, o) :: acc end) ns l.
@@ -118,14 +148,15 @@ Definition unbind_all (o : Z) (ns : list Z) (l : list (Z * Z)) : list (Z * Z) :=
 Definition conflict (s : st) (o : Z) (ns : list Z) : bool :=
   existsb (fun n => match resolve s n with Some o' => negb (o' =? o) | None => false end) ns.
 
-Definition upsert (s : st) (name : Z) (aliases : list Z) (want : list Z) : st :=
+Definition upsert (s : st) (name : Z) (aliases : list Z) (sv : list (Z * bool)) : st :=
+  let want := map fst sv in
   let ns := name :: aliases in
   match resolve s name with
   | None =>
       (* CreateClusterInfo + AddOrUpdateForServerNames(nil, info); refused on a server-name conflict *)
       let o := next s in
       if conflict s o ns then s else
-      let new := fresh_eps (o + 1) o (dedup want) in
+      let new := fresh_eps (o + 1) o sv (dedup want) in
       mkSt (bind_all o ns (names s)) (clos s ++ [mkCl o ns false]) (eps s ++ new) (reqs s)
            (o + 1 + Z.of_nat (List.length new))
   | Some o =>
@@ -138,7 +169,7 @@ Definition upsert (s : st) (name : Z) (aliases : list Z) (want : list Z) : st :=
           let dropped := filter (fun n => negb (zmem n ns)) (cnames c) in
           mkSt (bind_all o ns (unbind_all o dropped (names s)))
                (map (fun x => if cobj x =? o then mkCl (cobj x) ns (ccancel x) else x) (clos s))
-               (map (drop_ep o want) (eps s) ++ fresh_eps (next s) o added) (reqs s)
+               (map (update_ep o sv) (map (drop_ep o want) (eps s)) ++ fresh_eps (next s) o sv added) (reqs s)
                (next s + Z.of_nat (List.length added))
       end
   end.
@@ -166,11 +197,11 @@ Definition live_ep (s : st) (o : Z) (n : Z) : option epo :=
    (build/fixes/C15_pick_on_stopped_cluster.diff) *)
 Definition ready_names (rc : bool) (s : st) (o : Z) (ups : list Z) : list Z :=
   filter (fun n => match live_ep s o n with
-                   | Some e => ehealthy e && (if rc then negb (cl_done s (ecl e) || ecancel e) else true)
+                   | Some e => negb (edisabled e) && ehealthy e && (if rc then negb (cl_done s (ecl e) || ecancel e) else true)
                    | None => false end) ups.
 
 Inductive op :=
-| OUpsert (name : Z) (aliases : list Z) (eps : list Z)
+| OUpsert (name : Z) (aliases : list Z) (servers : list (Z * bool))
 | ODelete (name : Z)
 | OHealthy (eo : Z)                 (* a probe of endpoint object eo is answered 200 *)
 | OTick (eo : Z)                    (* the health-check timer of eo fires *)
@@ -183,14 +214,14 @@ Inductive op :=
 
 Definition step (rc : bool) (s : st) (o : op) : st * list event :=
   match o with
-  | OUpsert name aliases want => (upsert s name aliases want, [])
+  | OUpsert name aliases sv => (upsert s name aliases sv, [])
   | ODelete name => (delete s name, [])
   | OHealthy eo =>
       match find_ep s eo with
       | Some e =>
           if probe_done s e then (s, [])
           else (mkSt (names s) (clos s)
-                  (map (fun x => if eobj x =? eo then mkEp (eobj x) (ecl x) (ename x) (elive x) (ecancel x) true else x) (eps s))
+                  (map (fun x => if eobj x =? eo then mkEp (eobj x) (ecl x) (ename x) (elive x) (ecancel x) true (edisabled x) (eprobing x) (pparent x) else x) (eps s))
                   (reqs s) (next s), [])
       | None => (s, [])
       end
